@@ -171,8 +171,9 @@ theorem dcCases_find (b : Bool) (i : Int) : ∀ (cs cs' : List (List Int × List
 
 /-- the condition rewriting used by `dcStmt` is sound -/
 theorem dcCond_sound {b : Bool} {c c' : Ex} {st : St} {r : Val}
-    (hc : (if b then (if isLogicalShape c then simp c else none) else some c) = some c')
+    (hc : dcCond b c = some c')
     (h : evalE st [] c = some r) : evalE st [] c' = some r := by
+  unfold dcCond at hc
   cases b with
   | false => simp at hc; subst hc; exact h
   | true =>
@@ -189,8 +190,9 @@ theorem isCmpOperand_noTypeFold (m : CMap) (e : Ex) (h : isCmpOperand e = true) 
   | _ => simp [typeFold]
 
 theorem dcSel_sound {b : Bool} {e e' : Ex} {st : St} {r : Val}
-    (hc : (if isCmpOperand e then (if b then simp e else some e) else none) = some e')
+    (hc : dcSel b e = some e')
     (h : evalE st [] e = some r) : evalE st [] e' = some r := by
+  unfold dcSel at hc
   split at hc
   · rename_i hl
     cases b with
@@ -418,7 +420,7 @@ theorem sim_stmt {b : Bool} {P P' : Program} (hrel : UnitsRel b P P') {f : Nat} 
       cases he : dcStmts b els with
       | none => simp [ht, he] at hd
       | some e' =>
-        cases hc : (if b then (if isLogicalShape c then simp c else none) else some c) with
+        cases hc : dcCond b c with
         | none => simp [ht, he, hc] at hd
         | some c' =>
           simp only [ht, he, hc, Option.bind_eq_bind, Option.bind] at hd
@@ -444,7 +446,7 @@ theorem sim_stmt {b : Bool} {P P' : Program} (hrel : UnitsRel b P P') {f : Nat} 
           · simp at h
   | select e cases dflt =>
     simp only [dcStmt] at hd
-    cases hc : (if isCmpOperand e then (if b then simp e else some e) else none) with
+    cases hc : dcSel b e with
     | none => simp [hc] at hd
     | some e' =>
       cases hcs : dcCases b cases with
@@ -503,6 +505,42 @@ theorem sim_stmt {b : Bool} {P P' : Program} (hrel : UnitsRel b P P') {f : Nat} 
           · simp at h
   | callSub g args =>
     simp [dcStmt] at hd; subst hd
-    sorry
+    have hr := hrel g
+    simp only [execStmt] at h
+    cases hu : findUnit P g with
+    | none => simp [hu] at h
+    | some u =>
+      rw [hu] at hr
+      obtain ⟨body', hb', hu'⟩ := hr
+      simp only [hu] at h
+      split at h
+      · simp at h
+      · rename_i hlen
+        split at h
+        · simp at h
+        · rename_i fargs hfa
+          split at h
+          · simp at h
+          · rename_i cs hcs
+            cases hx : execStmts P f u.body cs with
+            | fuel => simp [hx] at h
+            | err m => simp [hx] at h
+            | ok cs' sig2 =>
+              obtain ⟨f1, h1⟩ := ih.stmts u.body body' cs cs' sig2 hb' hx
+              rw [hx] at h
+              refine ⟨f1 + 2, single ?_⟩
+              simp only [execStmt, hu', hlen, if_false, hfa]
+              have hfd : ∀ x, findDecl { name := u.name, args := u.args, decls := u.decls, body := body' } x
+                  = findDecl u x := fun x => rfl
+              simp only [hfd, hcs, h1]
+              exact h
+
+theorem sim_succ {b : Bool} {P P' : Program} (hrel : UnitsRel b P P') {f : Nat} (ih : Sim b P P' f) :
+    Sim b P P' (f + 1) :=
+  ⟨sim_stmts ih, sim_stmt hrel ih, sim_doI ih, sim_whileI ih⟩
+
+theorem sim {b : Bool} {P P' : Program} (hrel : UnitsRel b P P') : ∀ f, Sim b P P' f
+  | 0 => sim_zero b P P'
+  | f + 1 => sim_succ hrel (sim hrel f)
 
 end LokiModel.C32
